@@ -1,6 +1,25 @@
 import Juniper.Proofs.StreamMergeMeasure
+import Juniper.Proofs.MergeProgress
+import Juniper.Model.Skeleton
+import Juniper.Generated.Skeleton
 /-!
-# C12 — progress of `stream.Merge` by one measure valid in all states
+# C12 — progress: `stream.Merge` by one measure valid in all states; `chans.Merge` / `chans.Replicate`
+# keep forwarding before everything is delivered
+
+Second half of this file (sections `chansMerge`, `replicate`): `Props/C12.lean` proves for `chans.Merge` and
+`chans.Replicate` conservation (safety) and "returns once every input is closed and everything was delivered"
+(progress from `AllDone`). Nothing there says that they *move* values before that point. Added here, for
+every arity / number of destinations, every reachable state: a receivable value can be received and is then
+the next value delivered; a closed and drained input can be seen closed; every step of Merge / Replicate and
+of their consumers strictly decreases a measure that only the producers' sends raise; and when no step of
+Merge / Replicate is enabled they have returned, or are parked at an output channel waiting for its receiver,
+or every input they listen to is open and empty. Who must act is named in each statement: `recv` / `exit` are
+steps of the goroutine itself; `deliver` is a rendez-vous on an unbuffered output and needs its receiver;
+`envSend` / `envClose` are the producers'. No fairness is asserted: these are enabledness + measure theorems.
+The arm tables (`Gen.Merge.merge2Clauses` … through `Proofs.MergeChans.good`) and the control skeletons are
+the regenerated facts the safety theorems depend on.
+
+First half:
 
 `Props/C12.lean` proves progress of `stream.Merge` in two special situations, each with its own measure:
 after `Close` of the merged stream was requested (`streamMerge_goroutines_finish_after_close`, measure
@@ -10,68 +29,87 @@ after `Close` of the merged stream was requested (`streamMerge_goroutines_finish
 This file adds it: `nuU` is strictly decreased by **every** step other than the consumer starting a call
 (`cCall`, `cClose`), in every state; hence the library cannot run for ever on its own, a quiescent state
 with a pending `Next` is always waiting for a *specific* input whose `Next` is in progress and not
-cancelled, and the pending `Next` returns within `nuU ≤ 10·k + 5` steps once those inputs answer.
+cancelled, and the pending `Next` returns within `nuU ≤ 10·k + 6` steps once those inputs answer.
 -/
 namespace Juniper.Props.C12Progress
-open Juniper.Model Juniper.Model.StreamMerge Juniper.Proofs.StreamMerge
+open Juniper.Model
+
+section streamMerge
+open Juniper.Model.StreamMerge Juniper.Proofs.StreamMerge
 variable {V : Type}
 
 /-- **The measure (stream.Merge).** Every step other than `cCall` / `cClose` strictly decreases `nuU`
-— goroutine steps, the consumer's `select` arms, the statements of `Close`, and every return of an
-input's `Next` — in every state; in states reachable from `Merge(in₀,…,in_{k-1})`, `nuU ≤ 10·k + 5`. -/
+— goroutine steps, the consumer's `select` arms, the expiry of the consumer's context while its `Next` is
+pending (`cExpire`), the statements of `Close`, and every return of an
+input's `Next` — in every state whose context is the one of the code read on this run (`origin = ctxOrigin`;
+the proof re-derives `ctxOrigin = plainCancel` from the regenerated facts: the environment label `ctxEnds`,
+"the context ends without `cancel()`", which would not decrease the measure, is dead); in states reachable
+from `Merge(in₀,…,in_{k-1})`, `nuU ≤ 10·k + 6`. -/
 theorem streamMerge_measure (k : Nat) :
-    (∀ (s s' : St V) l, step s l = some s' → isCall l = false → nuU s' < nuU s) ∧
-    (∀ s : St V, Reach (init V k) s → nuU s ≤ 10 * k + 5) :=
-  ⟨fun _ _ _ h hl => nuU_decreases h hl, fun _ h => nuU_le (reach_invA h) (reach_invD h)⟩
+    (∀ (s s' : St V) l, s.origin = ctxOrigin → step s l = some s' → isCall l = false → nuU s' < nuU s) ∧
+    (∀ s : St V, Reach (init V k) s → nuU s ≤ 10 * k + 6) :=
+  have ho : ctxOrigin = .plainCancel := by decide
+  ⟨fun _ _ _ hs h hl => nuU_decreases (hs.trans ho) h hl, fun _ h => nuU_le (reach_invA h) (reach_invD h)⟩
 
 /-- non-vacuity: the measure along a run of a 2-input merge — it falls with every step, including the
 inputs' returns, except where the consumer calls `Next` -/
 example : (List.range 9).map (fun n => (run (init (Option Int) 2)
       (([.inItem 0 (some 3), .inItem 1 (some 7), .cCall true, .sendOk 1, .inEnd 1, .exitStep 1, .cCall true, .sendOk 0] :
         List (Label (Option Int))).take n)).map nuU)
-    = [some 20, some 16, some 12, some 17, some 16, some 11, some 10, some 15, some 14] := by
+    = [some 20, some 16, some 12, some 18, some 16, some 11, some 10, some 16, some 14] := by
   decide
 
 /-- **Internal steps terminate (stream.Merge).** From any reachable state every sequence of steps that
 contains no new call of the consumer — in particular every sequence of steps from `internalLabels` —
-has at most `nuU s ≤ 10·k + 5` elements; there is no infinite run of such steps. -/
+has at most `nuU s ≤ 10·k + 6` elements; there is no infinite run of such steps. -/
 theorem streamMerge_internal_steps_terminate (k : Nat) (s : St V) (h : Reach (init V k) s) :
-    (∀ ls s', (∀ l ∈ ls, isCall l = false) → run s ls = some s' → ls.length + nuU s' ≤ nuU s ∧ ls.length ≤ 10 * k + 5) ∧
+    (∀ ls s', (∀ l ∈ ls, isCall l = false) → run s ls = some s' → ls.length + nuU s' ≤ nuU s ∧ ls.length ≤ 10 * k + 6) ∧
     (∀ l, l ∈ internalLabels s → isCall l = false) ∧
     ¬ ∃ σ : Nat → St V, σ 0 = s ∧ ∀ n, ∃ l, isCall l = false ∧ step (σ n) l = some (σ (n + 1)) := by
+  have ho : ctxOrigin = .plainCancel := by decide
+  have hso : s.origin = .plainCancel := (reach_invA h).org.trans ho
   have hb := (streamMerge_measure (V := V) k).2 s h
   refine ⟨?_, fun l hl => isCall_of_internal hl, ?_⟩
   · intro ls s' hl hr
-    have := run_nuU hr hl
+    have := run_nuU hso hr hl
     exact ⟨this, by omega⟩
   · rintro ⟨σ, h0, hσ⟩
-    have key : ∀ n, n + nuU (σ n) ≤ nuU (σ 0) := by
+    have key : ∀ n, (σ n).origin = .plainCancel ∧ n + nuU (σ n) ≤ nuU (σ 0) := by
       intro n
       induction n with
-      | zero => simp
+      | zero => exact ⟨h0 ▸ hso, by simp⟩
       | succ n ih =>
         obtain ⟨l, hl, hst⟩ := hσ n
-        have := nuU_decreases hst hl
-        omega
+        have := nuU_decreases ih.1 hst hl
+        exact ⟨(step_origin hst).trans ih.1, by omega⟩
+    have key : ∀ n, n + nuU (σ n) ≤ nuU (σ 0) := fun n => (key n).2
     have := key (nuU (σ 0) + 1)
     omega
 
 /-- non-vacuity: two goroutines each holding an item, the consumer inside `Next`: hand-over, then the
-other input ends and its goroutine runs its five deferred steps — 7 steps in a row, measure 17 → 6 -/
+other input ends and its goroutine runs its five deferred steps — 7 steps in a row, measure 18 → 6 -/
 example : ∃ s s' : St (Option Int), Reach (init (Option Int) 2) s ∧
     run s [.sendOk 1, .inEnd 1, .exitStep 1, .exitStep 1, .exitStep 1, .exitStep 1, .exitStep 1] = some s' ∧
-    nuU s = 17 ∧ nuU s' = 6 :=
+    nuU s = 18 ∧ nuU s' = 6 :=
   ⟨_, _, reach_of_run [.inItem 0 (some 3), .inItem 1 (some 7), .cCall true] .refl rfl, rfl, by decide, by decide⟩
 
 /-- **A pending `Next` never waits on the library (stream.Merge).** In every reachable state in which
 the consumer is inside `Next` and no step needing no further input is enabled (`internalLabels`: the
 goroutines' steps, the consumer's arms, an input honouring a cancelled context), some input's `Next` is in
-progress and the shared context has not been cancelled — the environment owes that return. (With `Close`
-pending there is no quiescent state short of its return: `streamMerge_goroutines_finish_after_close`.) -/
+progress, the shared context has not been cancelled — the environment owes that return — and that context
+cannot end on its own however long the input stays silent (`ctxEnds` is not enabled: `ctxOrigin = plainCancel`,
+re-derived here from the regenerated facts), so the waiting `Next` neither fails nor ends while inputs are
+idle. (With `Close` pending there is no quiescent state short of its return:
+`streamMerge_goroutines_finish_after_close`.) -/
 theorem streamMerge_quiescent_next_served (k : Nat) (s : St V) (h : Reach (init V k) s) (live : Bool)
     (hc : s.cpc = .inNext live) (hq : QuiescentM s) :
-    ∃ (i : Nat) (g : G V), s.gs[i]? = some g ∧ g.pc = GPc.next ∧ s.cancelled = false :=
-  quiescent_next_waits_for_input (reach_invA h) (reach_invC h) (reach_invL h) hc hq
+    (∃ (i : Nat) (g : G V), s.gs[i]? = some g ∧ g.pc = GPc.next ∧ s.cancelled = false) ∧
+    step s .ctxEnds = none := by
+  have ho : ctxOrigin = .plainCancel := by decide
+  refine ⟨quiescent_next_waits_for_input (reach_invA h) (reach_invC h) (reach_invL h) hc hq, ?_⟩
+  cases hs : step s .ctxEnds with
+  | none => rfl
+  | some s' => exact (no_ctxEnds ((reach_invA h).org.trans ho) hs).elim
 
 /-- non-vacuity: input 1 has ended and its goroutine finished, the consumer waits in `Next`, nothing
 internal is enabled: input 0's `Next` is what is owed -/
@@ -82,7 +120,7 @@ example : ∃ s : St (Option Int), Reach (init (Option Int) 2) s ∧ s.cpc = .in
 
 /-- **`Next` of the merged stream returns.** For a reachable state inside `Next`: (1) every continuation
 without a new consumer call — goroutine steps and input returns in any order — has at most
-`nuU s ≤ 10·k + 5` steps, the call being still pending or having returned exactly one result; (2) a
+`nuU s ≤ 10·k + 6` steps, the call being still pending or having returned exactly one result; (2) a
 continuation ending where nothing internal is enabled and no input's `Next` is in progress has returned;
 (3) a continuation to the return exists. So `Next` returns within `nuU s` steps of the whole system,
 provided the inputs' pending `Next` calls return. -/
@@ -90,15 +128,17 @@ theorem streamMerge_next_terminates (k : Nat) (s : St V) (h : Reach (init V k) s
     (hc : s.cpc = .inNext live) :
     (∀ ls s', (∀ l ∈ ls, isCall l = false) → run s ls = some s' →
       ls.length + nuU s' ≤ nuU s ∧ NextOutcome s s') ∧
-    nuU s ≤ 10 * k + 5 ∧
+    nuU s ≤ 10 * k + 6 ∧
     (∀ ls s', (∀ l ∈ ls, isCall l = false) → run s ls = some s' → QuiescentM s' →
       (∀ g, g ∈ s'.gs → g.pc ≠ .next) → s'.cpc = .idle ∧ ∃ r, s'.results = s.results ++ [r]) ∧
     (∃ ls s', (∀ l ∈ ls, isCall l = false) ∧ run s ls = some s' ∧ ls.length ≤ nuU s ∧
       s'.cpc = .idle ∧ ∃ r, s'.results = s.results ++ [r]) := by
+  have ho : ctxOrigin = .plainCancel := by decide
+  have hso : s.origin = .plainCancel := (reach_invA h).org.trans ho
   have h0 : NextOutcome s s := Or.inl ⟨⟨live, hc⟩, rfl⟩
   refine ⟨?_, (streamMerge_measure (V := V) k).2 s h, ?_, ?_⟩
   · intro ls s' hl hr
-    exact ⟨run_nuU hr hl, nextOutcome_run h0 hl hr⟩
+    exact ⟨run_nuU hso hr hl, nextOutcome_run h0 hl hr⟩
   · intro ls s' hl hr hq hnone
     rcases nextOutcome_run h0 hl hr with ⟨⟨live', hp⟩, _⟩ | hret
     · exfalso
@@ -106,14 +146,181 @@ theorem streamMerge_next_terminates (k : Nat) (s : St V) (h : Reach (init V k) s
       obtain ⟨i, g, hg, hp', _⟩ := quiescent_next_waits_for_input (reach_invA hr') (reach_invC hr') (reach_invL hr') hp hq
       exact hnone g (List.mem_of_getElem? hg) hp'
     · exact hret
-  · obtain ⟨ls, s', h1, h2, h3⟩ := exists_next_run s (nuU s) s h h0 (Nat.le_refl _)
-    have := run_nuU h2 h1
+  · obtain ⟨ls, s', h1, h2, h3⟩ := exists_next_run ho s (nuU s) s h h0 (Nat.le_refl _)
+    have := run_nuU hso h2 h1
     exact ⟨ls, s', h1, h2, by omega, h3⟩
 
 /-- non-vacuity: the consumer waits in `Next` with both inputs silent; input 1 returns an item and the
 hand-over ends the `Next` -/
-example : ∃ s s' : St (Option Int), Reach (init (Option Int) 2) s ∧ s.cpc = .inNext true ∧ nuU s = 25 ∧
+example : ∃ s s' : St (Option Int), Reach (init (Option Int) 2) s ∧ s.cpc = .inNext true ∧ nuU s = 26 ∧
     run s [.inItem 1 (some 7), .sendOk 1] = some s' ∧ s'.cpc = .idle ∧ s'.results = s.results ++ [.item 1 (some 7)] :=
   ⟨_, _, reach_of_run [.cCall true] .refl rfl, rfl, by decide, rfl, rfl, rfl⟩
+
+end streamMerge
+
+section chansMerge
+variable {V : Type} [Merge.HasNil V]
+open Juniper.Model.Merge Juniper.Proofs.MergeChans
+
+/-- **chans.Merge takes what is offered.** For every arity (each of the four code paths), in every reachable
+state in which Merge is at its receive / `select` / `reflect.Select` (`pc = top`): (1) if a value is
+receivable on input `i`, Merge's receive on `i` is enabled and Merge then holds exactly the oldest such value
+for `out` — in particular `i` is still listened to; (2) if input `i` is closed and drained and still listened
+to, the receive on `i` is enabled and observes the close: `i` is no longer listened to, nothing else changes,
+Merge is back at the `select` or has returned. Both are steps of Merge alone (no other party has to act).
+First conjunct: the code paths have the control flow the LTS hard-wires (regenerated skeletons); the arms'
+behaviour is the regenerated `Gen.Merge` tables (through `good`). -/
+theorem merge_offers (n : Nat) (s : St V) (h : Reach (init V n) s) (hp : s.pc = .top)
+    (i : Nat) (c : Chan V) (hc : s.ins[i]? = some c) :
+    (Gen.Skeleton.chansMerge = Model.Skeleton.chansMerge ∧ Gen.Skeleton.merge2 = Model.Skeleton.merge2 ∧
+      Gen.Skeleton.merge3 = Model.Skeleton.merge3) ∧
+    (∀ v rest, c.avail = v :: rest →
+      step s (.recv i) = some { s with ins := s.ins.set i { c with avail := rest }, pc := .hold i v }) ∧
+    (c.avail = [] → c.closed = true → i ∈ s.live →
+      ∃ s', step s (.recv i) = some s' ∧ s'.live = s.live.erase i ∧ (s'.pc = .top ∨ s'.pc = .done) ∧
+        s'.ins = s.ins ∧ s'.out = s.out) :=
+  have hi := reach_inv h
+  ⟨⟨by decide, by decide, by decide⟩, fun _ _ hav => recv_value_enabled (good n) hi hp hc hav,
+   fun hav hcl hil => recv_close_enabled (good n) hi hp hc hav hcl hil⟩
+
+/-- three inputs (`merge3`): input 1 has two values queued and is closed, input 0 is closed and empty; the
+receive on 1 takes the older value; the receive on 0 sees the close -/
+example : ∃ s : St (Option Int), Reach (init (Option Int) 3) s ∧ s.pc = .top ∧
+    (∃ s', step s (.recv 1) = some s' ∧ s'.pc = .hold 1 (some 5)) ∧
+    (∃ s', step s (.recv 0) = some s' ∧ s'.live = [1, 2] ∧ s'.pc = .top) :=
+  ⟨_, reach_of_run [.envSend 1 (some 5), .envSend 1 (some 6), .envClose 1, .envClose 0] .refl rfl, rfl,
+    ⟨_, rfl, by decide⟩, ⟨_, rfl, by decide, by decide⟩⟩
+
+/-- **A value received is the next value delivered (chans.Merge).** In any state in which Merge holds value
+`v` of input `i` (blocked in `out <- item`): the hand-off `deliver` is enabled — it is a rendez-vous on `out`,
+so it is the *consumer of `out`* who must act — and appends exactly `(i, v)` to the output; no other step of
+Merge is enabled (no further receive, no return), so nothing can overtake `v` and Merge receives at most one
+value ahead of its consumer. -/
+theorem merge_forwards_what_it_received (s : St V) (i : Nat) (v : V) (hp : s.pc = .hold i v) :
+    step s .deliver = some { s with out := s.out ++ [(i, v)], pc := .top } ∧
+    (∀ j, step s (.recv j) = none) ∧ step s .exit = none :=
+  hold_only_deliver hp
+
+example : ∃ s s' : St (Option Int), Reach (init (Option Int) 4) s ∧ s.pc = .hold 2 none ∧
+    step s (.recv 0) = none ∧ step s .deliver = some s' ∧ s'.out = [(2, none)] ∧ s'.pc = .top :=
+  ⟨_, _, reach_of_run [.envSend 2 none, .envSend 0 (some 5), .recv 2] .refl rfl, rfl, rfl, rfl, rfl, rfl⟩
+
+/-- **The measure before everything is delivered (chans.Merge).** `muPre = 2·(values receivable on the
+inputs) + (inputs still listened to) + (2 holding a value | 1 at the select | 0 returned)`. In every reachable
+state, for every arity: every step of Merge (`recv`: a value or a close observation; `exit`) and of its
+consumer (`deliver`) strictly decreases `muPre`; a producer's `envSend` raises it by exactly 2 and `envClose`
+leaves it unchanged. Hence between two actions of the producers at most `muPre s` steps happen (every run
+without `envSend`/`envClose` has at most `muPre s` steps): Merge cannot spin, and each received value is
+handed over before the next receive (`merge_forwards_what_it_received`). -/
+theorem merge_measure (n : Nat) (s : St V) (h : Reach (init V n) s) :
+    (∀ l s', step s l = some s' →
+      (isEnvInput l = false → muPre s' < muPre s) ∧
+      (∀ i v, l = .envSend i v → muPre s' = muPre s + 2) ∧ (∀ i, l = .envClose i → muPre s' = muPre s)) ∧
+    (∀ ls s', run s ls = some s' → (∀ l ∈ ls, isEnvInput l = false) → ls.length + muPre s' ≤ muPre s) :=
+  have hi := reach_inv h
+  ⟨fun _ _ hs => muPre_step (good n) hi hs, fun ls _ hr hl => run_muPre (good n) ls hi hr hl⟩
+
+/-- the measure along a run of a 2-input merge: +2 per send, unchanged by a close, −1 per step of Merge /
+of the consumer -/
+example : (List.range 9).map (fun k => (run (init (Option Int) 2)
+      (([.envSend 0 (some 1), .envSend 1 (some 2), .recv 1, .envClose 0, .deliver, .recv 0, .deliver, .recv 0] :
+        List (Label (Option Int))).take k)).map muPre)
+    = [some 3, some 5, some 7, some 6, some 6, some 5, some 4, some 3, some 2] := by
+  decide
+
+/-- **chans.Merge is never stuck while an input has a value and the consumer is willing.** In every reachable
+state, for every arity: if no step of Merge itself is enabled (no `recv i`, no `exit`) and Merge has not
+returned, then either Merge is parked in `out <- item` holding a value — the consumer of `out` must act, and
+`deliver` is then enabled (`merge_forwards_what_it_received`) —, or Merge is at the `select`, still listens
+to at least one input, every input it listens to is open and has nothing receivable, and no other input has
+anything receivable either — the producers must act. -/
+theorem merge_quiescent_waits_for_environment (n : Nat) (s : St V) (h : Reach (init V n) s)
+    (hnd : s.pc ≠ .done) (hq : QuiescentOwn s) :
+    (∃ i v, s.pc = .hold i v) ∨
+    (s.pc = .top ∧ s.live ≠ [] ∧
+      (∀ i, i ∈ s.live → ∃ c, s.ins[i]? = some c ∧ c.avail = [] ∧ c.closed = false) ∧
+      (∀ (i : Nat) (c : Chan V), s.ins[i]? = some c → c.avail = [])) :=
+  quiescent_cases (good n) (reach_inv h) hnd hq
+
+/-- five inputs (reflect path), two of them seen closed, one value delivered: nothing of Merge is enabled, the
+three remaining inputs are open and empty -/
+example : ∃ s : St (Option Int), Reach (init (Option Int) 5) s ∧ s.pc = .top ∧ s.live = [0, 2, 4] ∧
+    (∀ i < 5, step s (.recv i) = none) ∧ step s .exit = none :=
+  ⟨_, reach_of_run [.envClose 1, .envSend 3 (some 9), .envClose 3, .recv 1, .recv 3, .deliver, .recv 3] .refl rfl,
+    rfl, by decide, by decide, by decide⟩
+
+end chansMerge
+
+section replicate
+variable {V : Type}
+open Juniper.Model.Merge Juniper.Proofs.Replicate
+
+/-- **chans.Replicate takes what is offered and hands it to every destination in order.** For every number of
+destinations `m`, every reachable state: (1) at `range src` with a receivable value, the receive is enabled and
+Replicate starts handing the oldest value to destination 0 (with no destination it just consumes it); at
+`range src` with `src` closed and drained, the receive is enabled and Replicate returns; (2) while handing `v`
+to destination `j`, the hand-off `deliver` is enabled — a rendez-vous: *destination `j`'s receiver* must act —,
+appends `v` to what `j` received and moves on to `j + 1` (or back to `range src`), and no receive from `src`
+is enabled: nothing overtakes `v`; (3) so `m - j` hand-offs, to destinations `j, …, m-1` in this order, give `v`
+to each of them, change nothing else, and bring Replicate back to `range src`. First conjunct: Replicate is
+the two nested `range` loops around one send (regenerated skeleton); `src` / `dsts` / the send are the
+regenerated `Gen.Merge.repl*` facts. -/
+theorem replicate_offers (m : Nat) (s : RSt V) (h : RReach (rinit V m) s) :
+    Gen.Skeleton.replicate = Model.Skeleton.replicate ∧
+    (s.pc = .top → ∀ v rest, s.src.avail = v :: rest →
+      rstep s .recv = some (if 0 < s.m then { s with src := { s.src with avail := rest }, pc := .sending v 0 }
+                            else { s with src := { s.src with avail := rest } })) ∧
+    (s.pc = .top → s.src.avail = [] → s.src.closed = true → rstep s .recv = some { s with pc := .done }) ∧
+    (∀ v j, s.pc = .sending v j →
+      (∃ o, s.outs[j]? = some o ∧
+        rstep s .deliver = some { s with outs := s.outs.set j (o ++ [v]), pc := rAfter s.m v j }) ∧
+      rstep s .recv = none ∧
+      ∃ s', rrun s (List.replicate (m - j) .deliver) = some s' ∧ s'.pc = .top ∧ s'.src = s.src ∧
+        s'.outs.length = s.outs.length ∧
+        ∀ (j' : Nat) (o : List V), s.outs[j']? = some o → s'.outs[j']? = some (if j ≤ j' then o ++ [v] else o)) := by
+  have hi := rreach_inv h
+  refine ⟨by decide, fun hp _ _ hav => rrecv_value_enabled hp hav, fun hp hav hcl => rrecv_close_enabled hp hav hcl, ?_⟩
+  intro v j hp
+  obtain ⟨h1, h2⟩ := sending_only_deliver hi hp
+  exact ⟨h1, h2, fanout (m - j) s v j hi hp rfl⟩
+
+/-- three destinations, destination 0 already has the value 7: two more hand-offs complete the fan-out -/
+example : ∃ s s' : RSt (Option Int), RReach (rinit (Option Int) 3) s ∧ s.pc = .sending (some 7) 1 ∧
+    rrun s [.deliver, .deliver] = some s' ∧ s'.pc = .top ∧ s'.outs = [[some 7], [some 7], [some 7]] :=
+  ⟨_, _, rreach_of_run [.envSend (some 7), .recv, .deliver] .refl rfl, rfl, rfl, rfl, by decide⟩
+
+/-- **The measure (chans.Replicate).** `rmu = (m+1)·(values receivable on src) + (hand-offs still owed of the
+value being fanned out, +1) `. In every reachable state: every step of Replicate (`recv`) and of the
+destinations (`deliver`) strictly decreases `rmu`; the producer's `envSend` raises it by exactly `m + 1`,
+`envClose` leaves it unchanged; hence every run without `envSend`/`envClose` has at most `rmu s` steps. -/
+theorem replicate_measure (m : Nat) (s : RSt V) (h : RReach (rinit V m) s) :
+    (∀ l s', rstep s l = some s' →
+      (rIsEnvInput l = false → rmu s' < rmu s) ∧
+      (∀ v, l = .envSend v → rmu s' = rmu s + (m + 1)) ∧ (l = .envClose → rmu s' = rmu s)) ∧
+    (∀ ls s', rrun s ls = some s' → (∀ l ∈ ls, rIsEnvInput l = false) → ls.length + rmu s' ≤ rmu s) :=
+  have hi := rreach_inv h
+  ⟨fun _ _ hs => rmu_step hi hs, fun ls _ hr hl => rrun_rmu ls hi hr hl⟩
+
+example : (List.range 8).map (fun k => (rrun (rinit (Option Int) 2)
+      (([.envSend (some 7), .recv, .envSend none, .deliver, .deliver, .envClose, .recv] :
+        List (RLabel (Option Int))).take k)).map rmu)
+    = [some 1, some 4, some 3, some 6, some 5, some 4, some 4, some 3] := by
+  decide
+
+/-- **chans.Replicate is never stuck while the source has a value and the destinations are willing.** In every
+reachable state: if Replicate's receive is not enabled and it has not returned, then either it is parked in
+`dst <- item` for a destination `j < m` — that destination's receiver must act, and `deliver` is then enabled
+(`replicate_offers`) —, or it is at `range src` and `src` is open and empty — the producer must act. -/
+theorem replicate_quiescent_waits_for_environment (m : Nat) (s : RSt V) (h : RReach (rinit V m) s)
+    (hnd : s.pc ≠ .done) (hq : rstep s .recv = none) :
+    (∃ v j, s.pc = .sending v j ∧ j < m) ∨ (s.pc = .top ∧ s.src.avail = [] ∧ s.src.closed = false) :=
+  rquiescent_cases (rreach_inv h) hnd hq
+
+/-- destination 0 does not take: the second value of the source stays receivable but is not received -/
+example : ∃ s : RSt (Option Int), RReach (rinit (Option Int) 2) s ∧ s.pc = .sending (some 7) 0 ∧
+    s.src.avail = [none] ∧ rstep s .recv = none :=
+  ⟨_, rreach_of_run [.envSend (some 7), .recv, .envSend none] .refl rfl, rfl, rfl, rfl⟩
+
+end replicate
 
 end Juniper.Props.C12Progress
